@@ -49,6 +49,18 @@ def install():
     st = getattr(self, "_sim_thread", None)
     return st is not None and st.state != "finished"
 
+  orig_stop = AT.stop
+
+  def sim_stop(self):
+    # transparent: only notes where in the device history stop() returned
+    # (the promptness oracle counts the chunks written after that point)
+    ret = orig_stop(self)
+    w = backend.WORLD
+    if w is not None and getattr(self, "_stop_returned_at", None) is None:
+      self._stop_returned_at = len(w.history)
+    return ret
+
+  AT.stop = sim_stop
   AT.start = sim_start
   AT.join = sim_join
   AT.is_alive = sim_is_alive
